@@ -228,6 +228,15 @@ CLAIMED = {
         technique='contracts on the real methods (finite maps for statuses/labels, loop invariants), pyvc -> z3; closed-world and statement-order obligations by AST',
         design_ref='7/C30',
     ),
+    'C34': dict(
+        text='For ploidy 0, 1, 2 and both phasings, over all alleles in range: the int32 written by the real _tcall._convert_to_encoding (Python ints as 64-bit vectors with no-overflow obligations) is bit-for-bit the Call built by the real Scala Call0/Call1/Call2.apply (parsed and translated by vc/scvc.py, 32-bit JVM semantics), equals the specified packing phased | ploidy<<1 | (k(k+1)/2+j)<<3, neither side raises; '
+        '_convert_from_encoding of that int32 rebuilds the same alleles and phasing; the engine reads back ploidy, phasing, representation and allele pair. '
+        'Genotype.diploidGtIndex(j,k) = k(k+1)/2+j; index determines the pair (integer lemma); both cached tables hold the pair of every index; Genotype.allelePair dispatches table/closed form on the same index; hl.Call.__init__ orders unphased alleles. '
+        'The floating-point closed forms allele_pair_sqrt / allelePairSqrt are a BOUNDED stand-in (real functions evaluated at the first and last index of the rows; all rows in the thorough tier).',
+        note=COMMON_NOTE + 'The decoders use the closed forms through their contract (pair of the index), which is only covered by the bounded stand-in plus monotonicity of IEEE-754 operations - not counted as proved. Domain: k(k+1)/2+j < 2^29, k <= 32767 (haploid allele < 2^29); outside it the engine\'s own 32-bit arithmetic wraps. scvc\'s Scala subset semantics is part of the trusted base.',
+        technique='symbolic execution of the real Python and the real Scala text into bit-vector terms (pyvc bv mode + scvc), equivalence and round-trip obligations by z3; integer lemma for uniqueness; bounded enumeration for the float closed form',
+        design_ref='7/C34',
+    ),
 }
 
 NOT_YET = 'not yet brought within the verifier\'s reach in this build (planned in DESIGN.md section 7); no claim is made'
